@@ -276,6 +276,10 @@ func (join *JoinTable) saveLeft(row *Row) error {
 		rowjoin.old = olddata
 	}
 	rowjoin.Data.(*JoinData).Right = rightrow.Data
+	if row.Ty == Del {
+		// the index records to remove are those of the saved right row
+		rowjoin.Data.(*JoinData).Right = olddata.Right
+	}
 	join.addRowCache(rowjoin)
 	return nil
 }
@@ -302,6 +306,10 @@ func (join *JoinTable) saveRight(row *Row) error {
 			return err
 		}
 		if !bytes.Equal(fk, indexValue) {
+			continue
+		}
+		// a saved left row deleted in this batch: its join index is removed by saveLeft
+		if _, deleted := join.left.delmap[string(onerow.Primary)]; deleted && onerow.Ty == None {
 			continue
 		}
 		olddata := &JoinData{Right: row.old, Left: onerow.Data}
